@@ -163,8 +163,8 @@ PROPS = {
         assumptions=["global wkbcommon.MaxGeometryElements is set and restored by the harness around each decode (single goroutine)"],
     ),
     "C20": dict(
-        modules=["GeomVerif.Properties.C20", "GeomVerif.Properties.C20Threshold", "GeomVerif.Properties.C20Idem"],
-        n_quick=8000, n_thorough=150000, thorough_seeds=4, min_theorems=9,
+        modules=["GeomVerif.Properties.C20", "GeomVerif.Properties.C20Threshold", "GeomVerif.Properties.C20Idem", "GeomVerif.Properties.C20Dist"],
+        n_quick=8000, n_thorough=150000, thorough_seeds=4, min_theorems=10,
         rule="coordinate sequences of 0..11 points (10%: 0..2, 10%: 50..200) with stride 2..5 (extra ordinates arbitrary bit patterns incl. NaN), on "
              "integer grids 3/6/20/1000; shapes: random, random walk with repeated points, diagonal collinear runs with outliers, horizontal with "
              "noise, closed loops (zero-length chord), x thresholds {0, 0.5, 1, 1.5, 2, sqrt2, 3, 4, 10, grid, random}. Go's indexes and the indexes of "
